@@ -121,6 +121,15 @@ class Interp:
         self._loops: list[str] = []
         self.log_of_nullable: list[tuple[int, str]] = []
 
+    def _loop_name(self, it: ast.expr) -> str:
+        """the iterable of a loop, with single-definition locals of the function looked through (`alone = nests.alone`)"""
+        from .core import inline_locals
+
+        try:
+            return unparse(inline_locals(self.f.node, it))
+        except Exception:  # noqa
+            return unparse(it)
+
     # ---- expressions
     def ev(self, n: ast.AST) -> AV | None:
         if isinstance(n, ast.Constant):
@@ -161,14 +170,14 @@ class Interp:
         if isinstance(n, ast.Call):
             return self.call(n)
         if isinstance(n, ast.ListComp):
-            self._loops.append(unparse(n.generators[0].iter))
+            self._loops.append(self._loop_name(n.generators[0].iter))
             self._bind_target(n.generators[0].target, n.generators[0].iter)
             try:
                 return self.ev(n.elt)
             finally:
                 self._loops.pop()
         if isinstance(n, ast.DictComp):
-            self._loops.append(unparse(n.generators[0].iter))
+            self._loops.append(self._loop_name(n.generators[0].iter))
             self._bind_target(n.generators[0].target, n.generators[0].iter)
             try:
                 return self.ev(n.value)
@@ -317,7 +326,7 @@ class Interp:
             if isinstance(t, ast.Name):
                 if isinstance(st.value, (ast.DictComp, ast.ListComp)):
                     self.env[t.id] = None
-                    self._loops.append(unparse(st.value.generators[0].iter))
+                    self._loops.append(self._loop_name(st.value.generators[0].iter))
                     try:
                         self._bind_target(st.value.generators[0].target, st.value.generators[0].iter)
                         v = self.ev(st.value.value if isinstance(st.value, ast.DictComp) else st.value.elt)
@@ -342,7 +351,7 @@ class Interp:
             recv = recv.value if isinstance(recv, ast.Subscript) else recv
             self.bind(unparse(recv), self.ev(st.value.args[0]), st)
         elif isinstance(st, ast.For):
-            self._loops.append(unparse(st.iter))
+            self._loops.append(self._loop_name(st.iter))
             self._bind_target(st.target, st.iter)
             try:
                 self.run(st.body)
